@@ -194,7 +194,7 @@ Proof.
   apply forallb_flat_map_iff. intros kv Hx.
   specialize (Hd kv Hx). apply andb_prop in Hd. destruct Hd as [Hn Hdx].
   rewrite (plain_key_spec k (fst kv) (p ++ [PKey]) Hkey). cbn [app].
-  apply IH with (c := map_ctx c) (req := true); try assumption; [now apply (Hall kv Hx)|].
+  apply IH with (c := map_ctx c e) (req := true); try assumption; [now apply (Hall kv Hx)|].
   intro Heq; rewrite Heq in Hn; discriminate.
 Qed.
 
